@@ -208,6 +208,7 @@ func (v *VStruct) validate(structName string, value reflect.Value, isValidGather
 					v.exist(true, structName, fieldInfo.name, cusMsg, fieldValue)
 				case Either, BothEq:
 					v.vc.initValid2FieldsMap(&name2Value{
+						groupObj:   structName,
 						validName:  validName,
 						objName:    structName,
 						fieldName:  fieldInfo.name,
